@@ -797,6 +797,20 @@ example : randomIds (serveAll 0 [⟨"a@b", "1", none, .absent, .absent, .default
     ⟨"a@b", "3", none, .invalid, .absent, .default⟩,
     ⟨"a@b", "4", none, .absent, .absent, .default⟩]) = [0, 1] := by decide
 
+/-- regenerated by running REAL receiving sessions one after the other on ONE feature value
+(`BindResource()` and `BindCustom(echo)`), 2 to 4 sessions with their own remote address, request id
+and requested resource: every reply carries its own request's id and its own session's address, the
+default callback hands out non-empty pairwise distinct resources and the custom one is called with
+each session's own request — the behaviour the closure facts `bindClosureWrites` /
+`bindCapturedCallResults` approximate syntactically; and the model's `serveAll` assigns `k` distinct
+random values to `k` such sessions -/
+theorem C12_gen_bind_shared_probe :
+    Generated.C12.bindSharedProbe = some (["default", "custom"].flatMap fun kind =>
+      [2, 3, 4].map fun k => (kind, k, true, true, true)) ∧
+    (∀ k ∈ [2, 3, 4], (randomIds (serveAll 0 ((List.range k).map fun i =>
+      (⟨s!"u{i}@h{i}.example", s!"req{i}", some s!"res{i}", .absent, .absent, .default⟩ : Req)))).length = k) := by
+  refine ⟨by decide, by decide⟩
+
 theorem C12_bind_bad_request_address (remote reqId : String) (reqRes : Option String)
     (reqTo reqFrom : JidField) (cb : Callback) (h : reqTo = .invalid ∨ reqFrom = .invalid) :
     (server remote reqId reqRes reqTo reqFrom cb).reply = none ∧
